@@ -94,4 +94,51 @@ Section Interval.
         assert (0 < m * 2 ^ j) by (apply Z.mul_pos_pos; [lia|apply Z.pow_pos_nonneg; lia]). lia. }
       destruct (G m' j' m j ltac:(lia) Hc Hm' H (eq_sym E)). split; congruence.
   Qed.
+
+  Lemma Fint_nonneg : forall k, Fint f k -> 0 <= k.
+  Proof. intros k (m & j & Hm & Hj & ->). apply Z.mul_nonneg_nonneg; [lia|apply Z.pow_nonneg; lia]. Qed.
+
+  (* two different floats cannot both be the round-to-nearest-even image of the same real *)
+  Lemma is_rne_unique_lt : forall N D k1 k2, 0 < D -> k1 < k2 -> is_rne f N D k1 -> is_rne f N D k2 -> False.
+  Proof.
+    intros N D k1 k2 HD Hlt [[HF1 Hn1] Ht1] [[HF2 Hn2] Ht2].
+    pose proof (Hn1 k2 HF2) as A. pose proof (Hn2 k1 HF1) as B.
+    assert (Heq : Z.abs (N - k1 * D) = Z.abs (N - k2 * D)) by lia.
+    destruct (nearer_lt N D k1 k2 HD Hlt) as [_ Emid]. pose proof (proj1 Emid Heq) as Mid.
+    destruct (Ht1 k2 HF2 ltac:(lia) Heq) as (m1 & j1 & E1 & Hj1 & Ev1 & Hm1 & Hc1).
+    destruct (Ht2 k1 HF1 ltac:(lia) (eq_sym Heq)) as (m2 & j2 & E2 & Hj2 & Ev2 & Hm2 & Hc2).
+    pose proof (Fint_nonneg k1 HF1) as K1.
+    assert (Pj1 : 0 < 2 ^ j1) by (apply Z.pow_pos_nonneg; lia).
+    assert (M1 : 0 <= m1).
+    { destruct (Z_lt_le_dec m1 0); [exfalso|assumption]. assert (m1 * 2 ^ j1 < 0) by (apply Z.mul_neg_pos; lia). lia. }
+    (* P is even, m1 is even and below P: m1 + 1 is still below P *)
+    assert (M1' : m1 + 1 < 2 ^ prec f).
+    { pose proof (P_2H f Hprec) as PH. cbv zeta in PH.
+      destruct (Z.eq_dec (m1 + 1) (2 ^ prec f)) as [E|]; [exfalso|lia].
+      assert (Z.even (m1 + 1) = true) by (rewrite E, PH, Z.even_mul; reflexivity).
+      rewrite Z.even_add, Ev1 in H. discriminate. }
+    destruct HF2 as (m2' & j2' & Hm2' & Hj2' & E2').
+    assert (G : k1 + 2 ^ j1 <= k2).
+    { rewrite E1, E2'. apply (gap_up f Hprec); try assumption; try lia. }
+    set (succ := (m1 + 1) * 2 ^ j1).
+    assert (Es : succ = k1 + 2 ^ j1) by (unfold succ; rewrite E1; ring).
+    assert (HFs : Fint f succ) by (exists (m1 + 1), j1; repeat split; lia).
+    assert (succ = k2).
+    { destruct (Z.eq_dec succ k2); [assumption|exfalso].
+      pose proof (Hn1 succ HFs) as C.
+      assert (k1 * D < succ * D) by (apply Z.mul_lt_mono_pos_r; lia).
+      assert (succ * D < k2 * D) by (apply Z.mul_lt_mono_pos_r; lia).
+      replace ((k1 + k2) * D) with (k1 * D + k2 * D) in Mid by ring.
+      set (a := k1 * D) in *. set (b := k2 * D) in *. set (c := succ * D) in *. lia. }
+    assert (Hc1' : j1 = 0 \/ 2 ^ (prec f - 1) <= m1 + 1) by (destruct Hc1; [left; assumption|right; lia]).
+    destruct (canon_rep_unique (m1 + 1) j1 m2 j2 Hj1 Hj2 Hc1' Hc2 M1' Hm2 ltac:(lia) ltac:(fold succ; congruence)) as [Em _].
+    rewrite <- Em in Ev2. rewrite Z.even_add, Ev1 in Ev2. discriminate.
+  Qed.
+
+  Theorem is_rne_unique : forall N D k1 k2, 0 < D -> is_rne f N D k1 -> is_rne f N D k2 -> k1 = k2.
+  Proof.
+    intros N D k1 k2 HD H1 H2. destruct (Z.lt_trichotomy k1 k2) as [L | [E | L]]; [exfalso|exact E|exfalso].
+    - exact (is_rne_unique_lt N D k1 k2 HD L H1 H2).
+    - exact (is_rne_unique_lt N D k2 k1 HD L H2 H1).
+  Qed.
 End Interval.
